@@ -553,8 +553,10 @@ fn main() {
     let grace = Duration::from_millis(args.u64("grace_ms", 60));
     let only = args.get("program").map(|s| s.to_string());
 
-    if let Some(path) = args.get("replay") {
-        let v: serde_json::Value = serde_json::from_str(&std::fs::read_to_string(path).unwrap()).unwrap();
+    // (a lock-order case has no program / schedule: the monitor fires in any run that covers the two code paths, so
+    // its replay is the ordinary enumeration below)
+    let replay_case: Option<serde_json::Value> = args.get("replay").map(|path| serde_json::from_str(&std::fs::read_to_string(path).unwrap()).unwrap()).filter(|v: &serde_json::Value| !v["program"].is_null());
+    if let Some(v) = replay_case {
         let p: Program = serde_json::from_value(v["program"].clone()).unwrap();
         let prefix: Vec<usize> = v["schedule"].as_array().unwrap().iter().map(|x| x.as_u64().unwrap() as usize).collect();
         let leaf = run_leaf(&p, &prefix, grace);
